@@ -44,6 +44,7 @@ type aval struct {
 	t    bool
 	g    string // ptr: global name
 	atom string // symbolic boolean: name of atom
+	tup  []aval // tuple results of an inlined call
 }
 
 func constBits(u uint64) bits {
@@ -150,6 +151,8 @@ type bitInterp struct {
 	atoms   map[string]bool // assumed truth value per atom; atoms met are recorded in seenAtoms
 	seen    map[string]bool
 	params  []bits
+	args    []aval // when set, used instead of params (inlined call)
+	depth   int
 	err     string
 }
 
@@ -160,7 +163,11 @@ func atomName(op token.Token, param string, c uint64) string {
 func (bi *bitInterp) run() ([]aval, bool) {
 	env := map[ssa.Value]aval{}
 	for i, p := range bi.fn.Params {
-		env[p] = aval{kind: "bits", b: bi.params[i]}
+		if bi.args != nil {
+			env[p] = bi.args[i]
+		} else {
+			env[p] = aval{kind: "bits", b: bi.params[i]}
+		}
 	}
 	get := func(v ssa.Value) (aval, bool) {
 		if k, ok := v.(*ssa.Const); ok {
@@ -292,6 +299,40 @@ func (bi *bitInterp) run() ([]aval, bool) {
 				}
 				return out, true
 			case *ssa.DebugRef:
+			case *ssa.Call:
+				// a helper of the same package (spreadBits, compactBits, …) is interpreted in place
+				cal := x.Call.StaticCallee()
+				if cal == nil || len(cal.Blocks) == 0 || cal.Pkg != bi.fn.Pkg || bi.depth > 4 {
+					bi.err = "call that cannot be interpreted in place: " + x.String()
+					return nil, false
+				}
+				var args []aval
+				for _, a := range x.Call.Args {
+					av, ok := get(a)
+					if !ok {
+						bi.err = "argument not evaluable in " + x.String()
+						return nil, false
+					}
+					args = append(args, av)
+				}
+				sub := &bitInterp{fn: cal, globals: bi.globals, atoms: bi.atoms, seen: bi.seen, args: args, depth: bi.depth + 1}
+				res, ok := sub.run()
+				if !ok {
+					bi.err = cal.Name() + ": " + sub.err
+					return nil, false
+				}
+				if len(res) == 1 {
+					env[x] = res[0]
+				} else {
+					env[x] = aval{kind: "tuple", tup: res}
+				}
+			case *ssa.Extract:
+				t, ok := get(x.Tuple)
+				if !ok || t.kind != "tuple" || x.Index >= len(t.tup) {
+					bi.err = "extract from a non-tuple"
+					return nil, false
+				}
+				env[x] = t.tup[x.Index]
 			default:
 				bi.err = fmt.Sprintf("unsupported instruction %T %s (anything but shift/and/or networks yields no verdict)", in, in.String())
 				return nil, false
@@ -709,112 +750,89 @@ func truncate(s string, n int) string {
 func r42CornerOfOrigin(c *core.Ctx) {
 	const R = "R42"
 	names := []string{"tms20.TileMatrixSet.FromNative", "tms20.TileMatrixSet.ToNative", "tms20.TileMatrixSet.MatrixBoundingBox"}
-	type armInfo struct {
-		labels []string // in source order, "default" for default
-		sign   map[string]string
-	}
-	var infos []armInfo
 	for _, name := range names {
 		f := c.Anchor(R, name)
 		if f == nil {
 			continue
 		}
 		info := f.Pkg.TypesInfo
-		var sw *ast.SwitchStmt
-		ast.Inspect(f.Decl.Body, func(n ast.Node) bool {
-			if s, ok := n.(*ast.SwitchStmt); ok && s.Tag != nil {
-				if fv := core.FieldOf(info, s.Tag); fv != nil && fv.Name() == "CornerOfOrigin" {
-					sw = s
-				}
-			}
-			return true
-		})
-		if sw == nil {
-			c.Bad(R, "corner-switch/"+name, f.Decl.Pos(), "no switch on tm.CornerOfOrigin found")
+		holder, tlArm, blArm, form := cornerArms(c, f)
+		if holder == nil {
+			c.Bad(R, "corner-switch/"+name, f.Decl.Pos(), form)
 			continue
 		}
-		ai := armInfo{sign: map[string]string{}}
-		// arms: default must fall through into TopLeft
-		var prevFallsThrough bool
-		var pendingDefault bool
-		for _, cc := range sw.Body.List {
-			cl := cc.(*ast.CaseClause)
-			label := "default"
-			if cl.List != nil {
-				if len(cl.List) != 1 {
-					label = "multi"
-				} else if o := core.ObjOf(info, cl.List[0]); o != nil {
-					label = o.Name()
-				} else {
-					label = core.ExprStr(cl.List[0])
-				}
+		c.Saw(R, fmt.Sprintf("%s: %s", name, form))
+		c.Check(R, "corner-arms/"+name, holder.Pos(), tlArm != nil && blArm != nil, "case analysis: bottomLeft, everything else (incl. unknown values) topLeft — "+form, "corner-of-origin case analysis differs from its siblings: "+form)
+		if tlArm == nil || blArm == nil {
+			continue
+		}
+		// sign of the y term relative to the origin ordinate, per arm, evaluated symbolically:
+		// the y result must contain origin[1] with coefficient +1 (ToNative, MatrixBoundingBox) resp. the native y with
+		// coefficient -1/+1 (FromNative)
+		arms := evalWithCornerSwitch(c, f)
+		signOK := func(arm string) (bool, string) {
+			e := arms.arms[arm]
+			if e == nil {
+				return false, "arm not evaluable"
 			}
-			ai.labels = append(ai.labels, label)
-			ft := false
-			if len(cl.Body) > 0 {
-				if b, ok := cl.Body[len(cl.Body)-1].(*ast.BranchStmt); ok && b.Tok == token.FALLTHROUGH {
-					ft = true
+			switch name {
+			case "tms20.TileMatrixSet.FromNative":
+				y := e.varNamed("y")
+				if y == nil {
+					return false, "no y"
 				}
-			}
-			if label == "default" {
-				pendingDefault = ft && len(cl.Body) == 1
-			} else {
-				if prevFallsThrough && pendingDefault {
-					ai.sign["default->"+label] = "yes"
-				}
-				// sign of the y term: origin ordinate [1] combined with a tile-size/grid-height term
-				sign := ""
-				ast.Inspect(cl, func(n ast.Node) bool {
-					be, ok := n.(*ast.BinaryExpr)
-					if !ok || (be.Op != token.ADD && be.Op != token.SUB) {
-						return true
-					}
-					// one side must be a plain variable defined in this arm from pointOfOriginXY[1]
-					lhsIsOrigin := false
-					if id, ok := ast.Unparen(be.X).(*ast.Ident); ok {
-						if o := core.ObjOf(info, id); o != nil {
-							if def := singleDef(info, cl, o); def != nil {
-								if ix, ok := ast.Unparen(def).(*ast.IndexExpr); ok {
-									if k, isC := core.ConstInt(info, ix.Index); isC && k == 1 {
-										lhsIsOrigin = true
-									}
-								}
-							}
+				// coefficient sign of pt.Y(): negative for TopLeft, positive for BottomLeft
+				neg, pos := false, false
+				for k, co := range y {
+					if strings.Contains(k, "pt.Y()") {
+						if co.Sign() < 0 {
+							neg = true
+						} else {
+							pos = true
 						}
 					}
-					if lhsIsOrigin {
-						sign += be.Op.String()
-					}
-					return true
-				})
-				ai.sign[label] = sign
-			}
-			prevFallsThrough = ft
-		}
-		infos = append(infos, ai)
-		c.Saw(R, fmt.Sprintf("%s: arms %v, y-term signs %v", name, ai.labels, ai.sign))
-		okArms := len(ai.labels) == 3 && ai.labels[0] == "default" && ai.labels[1] == "TopLeft" && ai.labels[2] == "BottomLeft" && ai.sign["default->TopLeft"] == "yes"
-		c.Check(R, "corner-arms/"+name, sw.Pos(), okArms, "arms: default falls through to TopLeft; BottomLeft", fmt.Sprintf("corner-of-origin case analysis differs from its siblings: arms %v (default must fall through to TopLeft)", ai.labels))
-		// y origin used with - in TopLeft and + in BottomLeft.  FromNative's TopLeft arm computes (maxY - pt.Y()): also "-".
-		tl, bl := ai.sign["TopLeft"], ai.sign["BottomLeft"]
-		if name == "tms20.TileMatrixSet.FromNative" {
-			// BottomLeft arm is (pt.Y() - minY): the origin is on the right-hand side; accept sign "" there and check textual form
-			okSign := strings.Contains(tl, "-") && !strings.Contains(tl, "+")
-			blOK := false
-			ast.Inspect(sw, func(n ast.Node) bool {
-				be, ok := n.(*ast.BinaryExpr)
-				if ok && be.Op == token.SUB {
-					if id, ok := ast.Unparen(be.Y).(*ast.Ident); ok && strings.HasPrefix(strings.ToLower(id.Name), "miny") {
-						blOK = true
+				}
+				if arm == "TopLeft" {
+					return neg && !pos, y.String()
+				}
+				return pos && !neg, y.String()
+			case "tms20.TileMatrixSet.ToNative":
+				y := e.elem["topLeftPt[1]"]
+				if y == nil {
+					return false, "no topLeftPt[1]"
+				}
+				neg, pos := false, false
+				for k, co := range y {
+					if strings.Contains(k, "tile.Y") {
+						if co.Sign() < 0 {
+							neg = true
+						} else {
+							pos = true
+						}
 					}
 				}
-				return true
-			})
-			c.Check(R, "corner-signs/"+name, sw.Pos(), okSign && blOK, "TopLeft: origin.y - point.y; BottomLeft: point.y - origin.y", fmt.Sprintf("row direction does not follow the corner of origin (TopLeft sign %q)", tl))
-		} else {
-			c.Check(R, "corner-signs/"+name, sw.Pos(), tl == "-" && bl == "+", "TopLeft subtracts the y term from the origin ordinate, BottomLeft adds it", fmt.Sprintf("y term signs: TopLeft %q (want -), BottomLeft %q (want +): rows are numbered in the wrong direction for one corner convention", tl, bl))
+				if arm == "TopLeft" {
+					return neg && !pos, y.String()
+				}
+				return pos && !neg, y.String()
+			default:
+				bl, tr := e.elem["bottomLeft[1]"], e.elem["topRight[1]"]
+				if bl == nil || tr == nil {
+					return false, "no bounding box ordinates"
+				}
+				d := pAdd(tr, bl, -1)
+				okc := pEq(d, pSym("gridHeight"))
+				origin := pSym("pointOfOriginXY[1]")
+				if arm == "TopLeft" {
+					return okc && pEq(tr, origin), d.String()
+				}
+				return okc && pEq(bl, origin), d.String()
+			}
 		}
-		// origin through ToXYPoint(tms, *tm.PointOfOrigin), [0] for x
+		okTL, dTL := signOK("TopLeft")
+		okBL, dBL := signOK("BottomLeft")
+		c.Check(R, "corner-signs/"+name, holder.Pos(), okTL && okBL, "rows run downward from the origin for topLeft and upward for bottomLeft", fmt.Sprintf("y term signs do not follow the corner of origin: TopLeft %s ; BottomLeft %s", dTL, dBL))
+		// origin through ToXYPoint(tms, *tm.PointOfOrigin)
 		calls := core.CallsIn(info, f.Decl, "tms20.ToXYPoint")
 		okXY := len(calls) == 1
 		if okXY {
